@@ -15,7 +15,7 @@ import subprocess
 import sys
 import time
 
-from . import build, configs, gen, llir, ops, runner, known, sysconsts, special
+from . import build, configs, gen, llir, ops, runner, known, sysconsts, special, memops
 
 ROOT = os.path.dirname(build.HERE)
 EVIDENCE = os.path.join(ROOT, 'evidence')
@@ -96,7 +96,7 @@ def run_wrapper_property(prop, tier, seed, a, t0, extra_tasks=None, extra_eviden
     n_dedup = 0
     per_cfg_counts = {}
     for cfg in cfgs:
-        ws = gen.wrappers_for(cfg, [prop], tier)
+        ws = gen.wrappers_for(cfg, [prop], tier) + memops.wrappers_for(cfg, [prop], tier)
         if a.ops:
             ws = [w for w in ws if re.search(a.ops, w['op'])]
         if a.types:
